@@ -520,6 +520,20 @@ func (r *c41Run) gen() *c41Op {
 				}
 			}
 		}
+		if t.Prob(1, 5) { // a second role from the same delegator to the same delegate
+			for _, id := range r.ids {
+				for _, d := range ct.deleg[string(id)] {
+					if d.expire <= r.ch.Now {
+						continue
+					}
+					for _, rr := range ct.direct[string(d.root)] {
+						if rr != d.role && ct.delegOf(id, rr) == nil {
+							o.id, o.id2, o.role = d.root, id, rr
+						}
+					}
+				}
+			}
+		}
 		if t.Prob(1, 6) { // a delegate tries to pass its role on
 			o.id = delegatee()
 			if ds := ct.deleg[string(o.id)]; len(ds) > 0 {
